@@ -64,6 +64,9 @@ type FuncSpec struct {
 	Reveal      []string // opaque spec functions whose definition this proof needs
 	Impure      []string // function values (as written at the call) whose calls may have any side effect
 	ImpureMods  map[string][]string // optional: the locations such a call may modify (assumed)
+	AtReturn    []AtStmt // ghost assignments executed at every return
+	PureHeap    bool     // pure, but the result depends on the (mutable) state of the objects passed: only comparable within one heap version
+	Prune       bool     // drop branches whose path condition is unsatisfiable (they are not translated)
 }
 
 // splitKeyNames splits "Type.Method(recv, a, b)" into the key and the explicit names.
@@ -257,14 +260,17 @@ func (cs *Contracts) parseFile(fset *token.FileSet, f *ast.File, pkgPath string)
 			}
 			akey, anames := splitKeyNames(r2)
 			cur = &FuncSpec{Key: akey, Names: anames, Kind: "assume", PkgPath: pkgPath, Loops: map[int]*LoopSpec{}, Line: loc, Trusted: "external function (assumed contract)"}
-			k := "ext." + akey
-			if _, dup := cs.Funcs[k]; dup {
-				// an external contract is stated once; a second statement (in another package) is ignored
-				cur = &FuncSpec{Key: akey, Kind: "assume-dup", PkgPath: pkgPath, Loops: map[int]*LoopSpec{}, Line: loc}
-				continue
+			// registered for the declaring package, and globally if it is the first statement
+			ks := "ext@" + pkgPath + "." + akey
+			if _, dup := cs.Funcs[ks]; dup {
+				cs.errf(loc, "duplicate assumed contract for %s in %s", akey, pkgPath)
 			}
-			cs.Funcs[k] = cur
-			cs.Order = append(cs.Order, k)
+			cs.Funcs[ks] = cur
+			cs.Order = append(cs.Order, ks)
+			k := "ext." + akey
+			if _, dup := cs.Funcs[k]; !dup {
+				cs.Funcs[k] = cur
+			}
 		case "props":
 			if cur != nil {
 				cur.Props = append(cur.Props, strings.Fields(strings.ReplaceAll(rest, ",", " "))...)
@@ -276,6 +282,9 @@ func (cs *Contracts) parseFile(fset *token.FileSet, f *ast.File, pkgPath string)
 		case "pure":
 			if cur != nil {
 				cur.Pure = true
+				if rest == "heap" {
+					cur.PureHeap = true
+				}
 			}
 		case "inline":
 			if cur != nil {
@@ -284,6 +293,10 @@ func (cs *Contracts) parseFile(fset *token.FileSet, f *ast.File, pkgPath string)
 		case "implements":
 			if cur != nil {
 				cur.Implements = rest
+			}
+		case "prune":
+			if cur != nil {
+				cur.Prune = true
 			}
 		case "impure":
 			// impure NAME: calls through the function value written NAME have arbitrary side effects
@@ -444,6 +457,21 @@ func (cs *Contracts) parseFile(fset *token.FileSet, f *ast.File, pkgPath string)
 				continue
 			}
 			head := strings.Fields(rest[:j])
+			if len(head) == 1 && head[0] == "return" {
+				// at return: ghost <var | x.ghostfield> = E   (executed at every return, results bound)
+				w, r2 := splitWord(rest[j+1:])
+				e := strings.Index(r2, "=")
+				if w != "ghost" || e < 0 {
+					cs.errf(loc, "expected 'at return: ghost x = E'")
+					continue
+				}
+				c, ok := mkClause(strings.TrimSpace(r2[e+1:]), loc)
+				if !ok {
+					continue
+				}
+				cur.AtReturn = append(cur.AtReturn, AtStmt{Kind: "ghost", Target: strings.TrimSpace(r2[:e]), C: c})
+				continue
+			}
 			if len(head) < 2 || head[0] != "call" {
 				cs.errf(loc, "expected 'at call NAME#k'")
 				continue
@@ -563,7 +591,7 @@ func (cs *Contracts) parseFile(fset *token.FileSet, f *ast.File, pkgPath string)
 			cur = nil
 			// ghostfield T.name type
 			w, r2 := splitWord(rest)
-			j := strings.Index(w, ".")
+			j := strings.LastIndex(w, ".") // the type may be package-qualified: pkg.T.name
 			if j < 0 {
 				cs.errf(loc, "expected 'ghostfield T.name type'")
 				continue
